@@ -107,6 +107,10 @@ func init() {
 				start := 0
 				if variant == "lastleaf" {
 					start = (1 << depth) - batch
+				} else if variant == "beyond32" {
+					// a tree deeper than 32 levels has room at positions >= 2^32: a batch there is valid for the tree, but its start index
+					// has no 4-byte encoding, so no public input can commit to it
+					start = 1<<32 + rng.Intn(5)
 				} else if depth < 20 && (1<<depth) > batch {
 					start = rng.Intn((1 << depth) - batch + 1)
 					for k := 0; k < start && k < 6; k++ {
@@ -123,6 +127,7 @@ func init() {
 				}
 				p.PostRoot = tree.Root()
 				w = witnessOfInsertion(p, depth)
+				w.Start = new(big.Int).SetUint64(uint64(start))
 			} else {
 				tree := poseidon_tree.NewTree(depth)
 				n := batch
